@@ -919,8 +919,49 @@ def run(prog, rep, tier):
     rep.rule('LOOP-carried-flag', 'a flag set under a test inside a loop body and read there is '
              're-initialised per iteration')
     check_carried_flags(prog, rep, ['tenpy/networks/site.py'])
+    rep.rule('JW-left-operator', 'the on-site JW factor of a two-site term is attached to the left '
+             'operator as `op_i JW` in both places that build such terms')
+    if check_jw_left_operator(prog, rep) < 2:
+        raise AnalysisError('JW-left-operator: fewer than 2 products found')
     return rep.finish(
         level='other',
         explanation='Operator-registry coupling, Jordan-Wigner routing, parameter-family '
         'coherence and grouped-site JW bookkeeping decided structurally on site.py, terms.py, '
         'mps.py.')
+
+
+# ------------------------------------------------------------------ JW-left-operator
+def check_jw_left_operator(prog, rep):
+    """JW-left-operator: for a two-site fermionic term `op_i ... op_j` (i < j) the Jordan-Wigner
+    string covers the sites i <= k < j: besides the string sites in between it contributes ONE
+    on-site factor, on the LEFT site, applied before op_i (`op_i JW`). The two places that attach
+    it (CouplingTerms.coupling_term_handle_JW and CouplingModel.add_exponentially_decaying_coupling)
+    agree: the only operator re-defined through multiply_op_names is the left one, with the JW
+    factor second in the product."""
+    sites = [('tenpy/networks/terms.py', 'CouplingTerms.coupling_term_handle_JW'),
+             ('tenpy/models/model.py', 'CouplingModel.add_exponentially_decaying_coupling')]
+    n = 0
+    for rel, q in sites:
+        m = prog.module(rel)
+        f = m.func(q)
+        prods = [st for st in stmts_of(f) if isinstance(st, ast.Assign) and isinstance(
+            st.value, ast.Call) and isinstance(st.value.func, ast.Attribute) and
+            st.value.func.attr == 'multiply_op_names']
+        if not prods:
+            raise AnalysisError('%s: no multiply_op_names product found' % q)
+        for st in prods:
+            n += 1
+            tgt = unparse(st.targets[0])
+            arg = st.value.args[0] if st.value.args else None
+            elts = [unparse(e) for e in arg.elts] if isinstance(arg, (ast.List, ast.Tuple)) else []
+            ok = tgt == 'op_i' and len(elts) == 2 and elts[0] == 'op_i' and \
+                elts[1] in ("'JW'", 'op_string')
+            rep.instance('JW-left-operator', {'function': q, 'product': key_text(st)[:70], 'ok': ok})
+            if not ok:
+                rep.violation('JW-left-operator', m, q, 'jw-factor:' + tgt,
+                              '`%s`: the on-site Jordan-Wigner factor of a two-site term belongs '
+                              'to the left operator as `op_i JW` (string on sites i <= k < j); '
+                              'attached elsewhere the string is one site off -- pairing terms '
+                              'C_i C_j / Cd_i Cd_j and spinful hopping change sign structure'
+                              % key_text(st)[:60], st.lineno)
+    return n
